@@ -315,6 +315,29 @@ def StackOK (t : VTree) : Prop := stackViols t = [] ∧ t.v.top = t.v.mt
 
 instance (t : VTree) : Decidable (StackOK t) := by unfold StackOK; infer_instance
 
+/-! ### the judged tree of a MODEL layout (what the theorems are stated on) -/
+
+mutual
+  /-- vertical facts of the model's layout `t` of the resolved box `R` -/
+  def vtree : RBox → LTree → VTree
+    | .mk r cs, .mk b ks =>
+      .mk { idx := 0, top := b.y + b.mt, mt := b.mt, mb := b.mb, bt := b.bt, pt := b.pt, pb := b.pb, bb := b.bb,
+            h := b.h, height := r.height, minH := r.minH, maxH := r.maxH, isRoot := r.isRoot } (vtreeList cs ks)
+  def vtreeList : List RBox → List LTree → List VTree
+    | c :: cs, k :: ks => vtree c k :: vtreeList cs ks
+    | _, _ => []
+end
+
+mutual
+  /-- no box of the tree collapses through: every box without children fails the code's own
+      `collapsingThrough` test (it has a height, a min-height, a border or a padding) -/
+  def solid : RBox → Bool
+    | .mk r cs => (!cs.isEmpty || !r.emptyThrough) && solidList cs
+  def solidList : List RBox → Bool
+    | [] => true
+    | c :: cs => solid c && solidList cs
+end
+
 /-! ### horizontal judge and assembly of the judged tree from the implementation's numbers -/
 
 /-- the horizontal statement for one box in a containing block of width `cbW`:
